@@ -141,15 +141,15 @@ def extract(exe):
 # --------------------------------------------------------------------------- configurations, scripts
 def configs(k, quick):
     cs = [dict(name="plain", fsync=0, interval=0, small=False, bw=0, pre=1, modes='{"a", "w"}',
-               maxw=3 if quick else 4, maxops=7 if quick else 9, maxt=0),
+               maxw=3 if quick else 5, maxops=8 if quick else 11, maxt=0),
           dict(name="interval-bw", fsync=1, interval=INTERVAL_TICKS, small=False, bw=1, pre=0, modes='{"a", "w"}',
-               maxw=3 if quick else 4, maxops=7 if quick else 9, maxt=3 if quick else 4)]
+               maxw=3 if quick else 5, maxops=8 if quick else 11, maxt=3 if quick else 5)]
     if k["BufCap"]:
         cs.append(dict(name="fsync0-smallbuf", fsync=1, interval=0, small=True, bw=0, pre=0, modes='{"a", "w"}',
-                       maxw=2 * k["BufCap"] + 1, maxops=7 if quick else 9, maxt=0))
+                       maxw=2 * k["BufCap"] + (1 if quick else 2), maxops=8 if quick else 11, maxt=0))
     else:
         cs.append(dict(name="fsync0", fsync=1, interval=0, small=False, bw=0, pre=0, modes='{"a", "w"}',
-                       maxw=3 if quick else 4, maxops=7 if quick else 9, maxt=0))
+                       maxw=3 if quick else 5, maxops=8 if quick else 11, maxt=0))
     return cs
 
 
@@ -250,7 +250,7 @@ def sig_of(why):
     return "filesink:" + "-".join(why.split())[:70]
 
 
-def report(ck, exe, k, rej, label, conf=None):
+def report(ck, exe, k, rej, label, conf=None, conf_of=None):
     """a rejection is a violation only if it repeats when the script is run again, alone"""
     seen = set()
     for key, sc, why, ev in rej:
@@ -260,7 +260,7 @@ def report(ck, exe, k, rej, label, conf=None):
         again = validate(ck, [(key, sc, run(exe, sc))], label + " confirm")
         if again:
             ck.violation(sig_of(again[0][2]), f"file sink {key}: {again[0][2]}; script {' / '.join(sc.split(chr(10))[1:-2])}; rejected event {json.dumps(again[0][3])}",
-                         {"script": sc, "harness": "h_filesink", "config": conf or label, "constants": k, "why": again[0][2]})
+                         {"script": sc, "harness": "h_filesink", "config": (conf_of or {}).get(key) or conf or label, "constants": k, "why": again[0][2]})
         else:
             ck.drifted(f"file sink {key}: rejection '{why}' did not repeat when run alone")
 
@@ -302,8 +302,9 @@ def run_for(ck):
         return r
     with ThreadPoolExecutor(max_workers=len(cfs)) as ex:
         results = list(ex.map(mc, cfs))
-    cap = 1500 if quick else 30000
+    cap = 10000 if quick else 80000
     rnd = random.Random(ck.seed)
+    allexecs, conf_of = [], {}
     for cf, r in zip(cfs, results):
         label = cf["name"]
         if r.error:
@@ -333,29 +334,31 @@ def run_for(ck):
             behs = rnd.sample(good, min(len(good), cap))
         scripts = [script_of(k, cf, b) for b in behs]
         res = run_many(exe, scripts)
-        execs, ndrift = [], 0
+        ndrift = 0
         for i, (b, sc, evs) in enumerate(zip(behs, scripts, res)):
             d = compare(cf, b, evs)
             if d:
                 ndrift += 1
                 if ndrift <= 2:
                     ck.drifted(f"FileSink {label}: {d}; script {' / '.join(sc.split(chr(10))[1:-2])}")
-            execs.append((f"{label}-{i}", sc, evs))
+            allexecs.append((f"{label}-{i}", sc, evs))
+            conf_of[f"{label}-{i}"] = cf
             wrote = False
             nontrivial = False
             for h in b:
                 wrote = wrote or h["a"] == "write"
                 nontrivial = nontrivial or (wrote and h["a"] == "flush")
             ck.case(("filesink", label, i), nontrivial=nontrivial)
-        rej = validate(ck, execs, label)
-        ck.traces_validated += len(execs) - len(rej)
-        report(ck, exe, k, rej, label, cf)
         if behs:
             ck.sample({"filesink_config": label, "script": scripts[len(scripts) // 2].split("\n")[:-1],
                        "path_after_last_step": [e for e in res[len(scripts) // 2] if "disk" in e][-1]["disk"]})
         ck.extra["filesink_behaviours_replayed"] = ck.extra.get("filesink_behaviours_replayed", 0) + len(behs)
         ck.extra["filesink_behaviours_drifting"] = ck.extra.get("filesink_behaviours_drifting", 0) + ndrift
-        ck.extra["filesink_executions_rejected"] = ck.extra.get("filesink_executions_rejected", 0) + len(rej)
+    # ---- the verdict: one TLC run (TraceFileSink) over all recorded executions
+    rej = validate(ck, allexecs, "replayed behaviours", cap=12)
+    ck.traces_validated += len(allexecs) - len(rej)
+    ck.extra["filesink_executions_rejected"] = len(rej)
+    report(ck, exe, k, rej, "replayed behaviours", conf_of=conf_of)
     ck.extra["filesink_wall_s"] = round(time.time() - t0, 1)
 
 
